@@ -483,3 +483,11 @@ func labelledFor(pods []*corev1.Pod, rid string) int {
 
 // LabelledFor counts live pods carrying rollout-id == rid.
 func (e *cloneSetEnv) LabelledFor(w *World, rid string) int { return labelledFor(e.pods(w), rid) }
+
+// ReplicasOf: spec.replicas of the workload (0 if it does not exist)
+func (e *cloneSetEnv) ReplicasOf(w *World) int {
+	if cs := e.get(w); cs != nil && cs.Spec.Replicas != nil {
+		return int(*cs.Spec.Replicas)
+	}
+	return 0
+}
